@@ -68,12 +68,17 @@ UpUpd(t) == /\ rclock' = t /\ SameA /\ down' = FALSE /\ firm' = FALSE /\ downAt'
 \* outage began).  Such a connect is not one of the resurrector's retries.
 Straggler(t) == \/ \E r \in DOMAIN pend : pend[r].at <= downAt
                 \/ stragAt = t
+StragglerC(t) == \/ \E r \in DOMAIN pend : pend[r].at <= closedAt
+                 \/ stragAt = t
 Retry(t) == down /\ lastEnd >= 0 /\ downAt >= 0 /\ t > downAt /\ ~Straggler(t)
 
 \* a reconnect attempt starts: back-off discipline, and nothing after the client was closed
 AttemptCheck(t) ==
   IF Mono(t) # "ok" THEN Mono(t)
-  ELSE IF closedAt >= 0 /\ t > closedAt THEN "C09.quietAfterClose"
+  \* a call that was in flight when the client was closed may still time out inside the serial transport, which
+  \* then re-opens its socket once on that call's behalf (the pool closes the connection when it is handed back):
+  \* that is not one of the retries the statement speaks of
+  ELSE IF closedAt >= 0 /\ t > closedAt /\ ~StragglerC(t) THEN "C09.quietAfterClose"
   \* only attempts made after the outage is firm are the resurrector's retries; connects started in
   \* the instant the connection died belong to requests that were already past the resurrector
   ELSE IF ~Retry(t) THEN "ok"
@@ -114,7 +119,7 @@ DeliverCheck(r, kind, t) ==
   ELSE "ok"
 DeliverUpd(r, kind, t) ==
   /\ rclock' = t /\ SameA /\ pend' = [x \in DOMAIN pend \ {r} |-> pend[x]]
-  /\ stragAt' = IF r \in DOMAIN pend /\ down /\ pend[r].at <= downAt THEN t ELSE stragAt
+  /\ stragAt' = IF r \in DOMAIN pend /\ ((down /\ pend[r].at <= downAt) \/ (closedAt >= 0 /\ pend[r].at <= closedAt)) THEN t ELSE stragAt
   /\ UNCHANGED <<down, firm, downAt, lastEnd, prevGap, recv, closedAt>>
 
 SrvRecvCheck(r, t) == Mono(t)
